@@ -112,6 +112,15 @@ fn main() {
                         else { sched::run_incr(&obs, &scenarios, &mut w, &scratch) };
             println!("{stats}");
         }
+        "handles" => {
+            let scenarios = read_ndjson(a.get("in").expect("--in"));
+            let out = std::fs::File::create(a.get("out").expect("--out")).unwrap();
+            let mut w = BufWriter::new(out);
+            println!("{}", sched::run_handles(&scenarios, &mut w, &scratch));
+        }
+        "child-open" => {
+            sched::child_open(std::path::Path::new(a.get("dir").expect("--dir")));
+        }
         "keys" => {
             let inputs = read_ndjson(a.get("in").expect("--in"));
             let out = std::fs::File::create(a.get("out").expect("--out")).unwrap();
